@@ -344,6 +344,18 @@ Definition run_widen_kernel (a : list Z) : list Z :=
   | _ => [-1]
   end.
 
+(* CMD pad_split = 12 : b0 b1 h0 h1 w0 w1 c0 c1 -> [0] | [1 axis kept(8) moved(8)] *)
+Definition flat_rows (m : list (Z * Z)) : list Z := flat_map (fun r => [fst r; snd r]) m.
+Definition run_pad_split (a : list Z) : list Z :=
+  match a with
+  | [b0; b1; h0; h1; w0; w1; c0; c1] =>
+      match pad_split [(b0, b1); (h0, h1); (w0, w1); (c0, c1)] with
+      | Some (axis, kept, moved) => [1; Z.of_nat axis] ++ flat_rows kept ++ flat_rows moved
+      | None => [0]
+      end
+  | _ => [-1]
+  end.
+
 Definition run (cmd : Z) (a : list Z) : list Z :=
   if cmd =? 1 then run_driver_payload a
   else if cmd =? 2 then run_driver_parse a
@@ -356,4 +368,5 @@ Definition run (cmd : Z) (a : list Z) : list Z :=
   else if cmd =? 9 then run_check_inference a
   else if cmd =? 10 then run_dilated_decision a
   else if cmd =? 11 then run_widen_kernel a
+  else if cmd =? 12 then run_pad_split a
   else [-1].
